@@ -33,13 +33,17 @@ def last_lmi_slack(problem):
     return np.array(cs[-1].slack, dtype=float)
 
 
-def weight_of(rng, kind):
+def weight_of(rng, kind, k=None):
     if kind == 'none':
         return None, 'WNone'
-    k = int(rng.integers(1, 3))
+    k = int(rng.integers(1, 3)) if k is None else k
     Aw = rng.integers(-1, 2, size=(k, k)) / 2.0
     Bw = rng.integers(-1, 2, size=(k, 1)).astype(float)
     Cw = rng.integers(-2, 3, size=(1, k)).astype(float)
+    if k > 1 and len(set(Cw.ravel().tolist())) < k or not np.all(Cw):
+        Cw = (np.arange(1, k + 1) * rng.choice([-1.0, 1.0])).reshape(1, k)     # distinct non-zero output gains
+    if not np.any(Bw):
+        Bw[0, 0] = 1.0
     Dw = rng.integers(-1, 2, size=(1, 1)) / 2.0
     tag = 'WPre' if kind == 'pre' else 'WPost'
     return (kind, Aw, Bw, Cw, Dw), f'({tag} {qm(Aw)} {qm(Bw)} {qm(Cw)} {qm(Dw)})'
@@ -96,7 +100,16 @@ def run_blocks(rng, n, name, families=None):
                 payload.update(Xi=xi_eff.tolist(), P=P.tolist())
             else:
                 wk = ['none', 'pre', 'post'][(cid // len(fams)) % 3]
-                w, wcoq = weight_of(rng, wk)
+                # weighted cases go through every combination of one / two channels and filter order one / two
+                j = cid // (3 * len(fams))
+                if wk != 'none':
+                    if wk == 'pre':
+                        nu = 1 + j % 2
+                    else:
+                        pth = 1 + j % 2 if j % 4 < 2 else 2 + j % 2
+                    U = rng.integers(-3, 4, size=(pth, pth + nu)).astype(float)
+                    payload['U'] = U.tolist()
+                w, wcoq = weight_of(rng, wk, None if wk == 'none' else 1 + (j // 2) % 2)
                 gamma = float(rng.integers(1, 6))
                 reg = L.LmiEdmdHinfReg(weight=w, picos_eps=0, alpha=1.0, ratio=1.0)
                 nP = pth + (0 if w is None else (nu if wk == 'pre' else pth) * w[1].shape[0])
